@@ -57,6 +57,10 @@ CLAIMED = {
          "Same specification and engines as C06: ready / retries / filled and the correlate fields are state; NeverHalfFilled, ReadyAtOnce, ReadyComplete and RetriesBounded are invariants checked exhaustively and on every state of every validated trace; random histories add never-correlated flows, denied/rejected flows and stale records.",
          "Trusted: as C06. Records of one 5-tuple with conflicting classifications are modelled but the declarative invariants are not asserted for them.",
          "TLA+ Aggregation spec (TLC exhaustive) + graph replay / random histories + TLC trace validation"),
+ "C13": ("DESIGN.md §4 C13",
+         "Aggregation.tla (model-checked exhaustively on its own) is the sequential specification; AggLin.tla reads each recorded concurrent history (inv/ret stamps from one atomic counter) and TLC searches depth-first for a linearization that respects real-time order and reproduces every recorded result, every exported record and the final full state. A completed search without one is the violation. Runs are under the Go race detector; race/crash reports for go-ipfix frames are appended as operations that nothing explains.",
+         "Trusted: TLC, harness stamps, the race detector for the schedules actually run. Worker-pool messages have no observable completion (30 ms quiescence wait). Histories are <= 40 operations; a search that times out is reported as inconclusive, never as a verdict.",
+         "TLA+ sequential spec + TLC linearization search (AggLin.tla) over recorded concurrent histories under -race"),
 }
 PENDING = {}
 
